@@ -55,6 +55,11 @@ type Case struct {
 	OutPath  string // for Mode gen; if empty a scratch file is used and removed
 	KeepFile bool
 	Dot      bool // also run DrawGrammar on the result
+	// WallLimit (0: none) ends the run as a hang when it has taken this much real time although simulated time still
+	// advances: a loop whose iterations get ever more expensive (a string growing by one character per round) would take
+	// hours to use up a tick budget. It must be far above anything a terminating run of the case can need on a loaded
+	// machine; the checker that sets it confirms such a hang against the real CLI.
+	WallLimit time.Duration
 }
 
 type Obs struct {
@@ -181,6 +186,13 @@ func Run(c Case) *Obs {
 	defer backstop.Stop()
 	poll := time.NewTicker(500 * time.Millisecond)
 	defer poll.Stop()
+	var wallCh <-chan time.Time
+	if c.WallLimit > 0 {
+		wt := time.NewTimer(c.WallLimit)
+		defer wt.Stop()
+		wallCh = wt.C
+	}
+	wallHit := false
 	var lastTicks int64 = -1
 	still := 0
 wait:
@@ -188,6 +200,9 @@ wait:
 		select {
 		case res = <-done:
 			break wait
+		case <-wallCh:
+			wallHit = true
+			simrt.Abort() // the next Tick of any task now ends the run through hangCh
 		case <-hangCh:
 			// some task exhausted the budget; give the main task a moment to unwind
 			select {
@@ -237,6 +252,9 @@ wait:
 	}
 	simrt.Capture(false)
 	simrt.TaskPanicHook = nil
+	if wallHit && res.outcome == OutHang {
+		res.diag = fmt.Sprintf("still running after %v of real time at tick %d (simulated time advances ever more slowly); %s", c.WallLimit, simrt.Ticks(), res.diag)
+	}
 	o.Outcome, o.Diag, o.W = res.outcome, res.diag, res.w
 	o.Stdout = simrt.Stdout()
 	o.FsLog = simrt.FsLog()
